@@ -170,8 +170,8 @@ def run_cut(key, cut):
             if cut >= max(fl["need"], fr["need"]) and len(chans[0]) != len(fl["pcm"]):
                 return False, "incomplete-though-before-cut", {"path": p, "len": len(chans[0]), "full_len": len(fl["pcm"])}
             seen.update((stem + "-L", stem + "-R"))
-    # files completely before the cut must have been exported (only when the run did not end in an error)
-    if res["status"] == "ok":
+    # files completely before the cut must have been exported, however the run ended
+    if True:
         for k, s in samples.items():
             if cut >= s["need"] and k not in seen:
                 return False, "complete-file-not-exported", {"sample": k, "cut": cut, "need": s["need"], "reported": reported[:6]}
@@ -211,6 +211,10 @@ class Check(CheckBase):
             cuts.update(range(lo, len(img) + 1, stride))
             if key == "roland":
                 cuts.update(range(R.DATA_FAT_OFF, len(img) + 1, 509 if self.quick else 64))
+            if key == "akai_big":
+                # the header of the second partition: volume table and the first SAT words, densely
+                base = 14 * S
+                cuts.update(range(base, base + 2000, 3 if self.quick else 1))
             cases += [{"subject": key, "cut": c} for c in sorted(cuts)]
         small = [c for c in cases if c["subject"] != "roland"]
         rol = [c for c in cases if c["subject"] == "roland"]
